@@ -41,7 +41,10 @@ SPECS = {
     "a85hex": ("Eb", lambda t: ["a85hex", "6" if t == "thorough" else "4"], "ASCII85/ASCIIHex: no panic, limit respected, bounded == unbounded"),
     "a85hex-roundtrip": ("Eb", lambda t: ["a85hex-roundtrip", "5" if t == "thorough" else "3"], "ASCII85/ASCIIHex: decode(encode_ref(x)) == x"),
     "enc-tables": ("Ec", lambda t: ["enc-tables"], "TextEncoding::{encode_strict, encode, decode} on every one-char string / one-byte slice vs Annex D"),
-    "lru": ("Eb", lambda t: ["lru", "7" if t == "thorough" else "6"], "LruCache vs abstract LRU model: every get/put history (bounded) over 4 keys, capacities 0..=4"),
+    "lru": ("Eb", lambda t: ["lru", "6" if t == "thorough" else "5"], "LruCache vs abstract LRU model: every get/put history (bounded) over 5 keys, capacities 0..=4, plus a drain that exposes the complete recency order"),
+    "objcache": ("Eb", lambda t: ["objcache", "5" if t == "thorough" else "4"], "ObjectCache (RwLock-guarded) vs abstract LRU model: every get/put history (bounded) over 3 ids and 2 values, capacities 0..=3, plus a recency drain"),
+    "objects": ("Eb", lambda t: ["objects", "3" if t == "thorough" else "2"], "strings and names (values and dictionary keys) -> real writer (legacy + object streams) -> real reader -> same value"),
+    "revisions": ("Eb", lambda t: ["revisions", "3" if t == "thorough" else "2"], "revision chains (classic tables / xref streams / object streams / frees) -> PdfReader::get_object in both orders under three presets == newest definition"),
     "labels": ("Eb", lambda t: ["labels", "20000" if t == "thorough" else "5000"], "decimal/roman format(n) vs reference formatters; PageLabel/PageLabelTree::to_dict read by an independent object-level reader"),
     "content": ("Eb", lambda t: ["content", "4" if t == "thorough" else "3"], "API -> content stream -> ContentParser::parse_strict: show-text operands and f64 operands with NaN/inf"),
     "png-grid": ("Eb", lambda t: ["png-grid"], "PNG files from a reference encoder (gray 1/2/4/8 bit, RGB8; filters 0-4; widths 1..17) -> Image::from_png_data vs expected 8-bit samples"),
@@ -64,7 +67,7 @@ def run(prop, names, tier):
             rec["evaluated"] = res.get("evaluated")
             rec["bound"] = res.get("bound")
             dis = res.get("disagreements")
-            n = dis if isinstance(dis, int) else len(dis or [])
+            n = dis if isinstance(dis, int) else max(len(dis or []), res.get("disagreement_count", 0) or 0)
             if nm == "letters":
                 n = len(res.get("other", []))
                 rec["iso_ok"] = res["iso_ok"]; rec["bijective26_not_iso"] = res["bijective26_not_iso"]
